@@ -154,7 +154,7 @@ def compare(actual, expected, path='value'):
 _SOLVER = [None]
 
 
-def concrete(term, what):
+def concrete(term, what, under=None):
     """the single value a term can take under the harness premises (after the size case split): by simplification, else by asking the
     solver for a value and proving it unique"""
     t = z3.simplify(term)
@@ -165,6 +165,8 @@ def concrete(term, what):
         s = z3.Solver()
         s.set('timeout', 20000)
         s.add(s0.assertions())
+        if under is not None:
+            s.add(under)
         if s.check() == z3.sat:
             v = s.model().eval(t, model_completion=True)
             s.add(t != v)
@@ -257,13 +259,23 @@ class NodeCtx:
         def s_carry(eng, fr, ins, st, name, argv):
             sret, selfp, idx = argv[0], argv[1], argv[2]
             nm, info = self.content_info(selfp, st, eng)
-            terms, n = self.index_terms(st.mem, idx, 'carry index')
-            for i, t in enumerate(terms):
-                eng.add_obl('contract', st, z3.Or(t < 0, t >= info['length']), 'carry index [%d] outside the content it is applied to' % i, eng.where(fr, ins))
-            arr = z3.K(z3.BitVecSort(64), BV(-7))
-            for i, t in enumerate(terms):
-                arr = z3.Store(arr, BV(i), z3.Select(info['atoms'], t))
-            self._ret(st, sret, self.fresh_content(eng, st, BV(n), arr))
+            o = st.mem.o[idx.obj]
+            data, off, ln = o.cells[idx.off + 8][0], o.cells[idx.off + 32][0], o.cells[idx.off + 40][0]
+            dc = [(g, q) for g, q in ptr_cases(data) if q.obj is not None]
+            k = z3.BitVec('k!', 64)
+            body = None
+            for g, q in dc:
+                e = z3.Select(st.mem.o[q.obj].arr, q.off + off + k)
+                if e.size() < 64:
+                    e = z3.SignExt(64 - e.size(), e)
+                body = e if body is None else z3.If(g, e, body)
+            if body is None:
+                body = BV(0)
+            kk = z3.FreshConst(z3.BitVecSort(64), 'carrypos')
+            at_kk = z3.substitute(body, (k, kk))
+            eng.add_obl('contract', st, z3.And(kk >= 0, kk < ln, z3.Or(at_kk < 0, at_kk >= info['length'])),
+                        'a carry index entry lies outside the content it is applied to', eng.where(fr, ins))
+            self._ret(st, sret, self.fresh_content(eng, st, ln, z3.Lambda([k], z3.Select(info['atoms'], body))))
             return None
 
         def s_rnw(eng, fr, ins, st, name, argv):
@@ -282,8 +294,19 @@ class NodeCtx:
             nm, info = self.content_info(argv[1], st, eng)
             self._ret(st, argv[0], self.fresh_content(eng, st, info['length'], info['atoms'], info['derived']))
             return None
+        def s_getitem_next(eng, fr, ins, st, name, argv):
+            sret, selfp, head = argv[0], argv[1], argv[2]
+            hp = st.mem.o[head.obj].cells.get(head.off)
+            if hp is None or not z3.is_true(z3.simplify(eng.is_null(hp[0]))):
+                raise Unsupported('getitem_next on the opaque content with a non-empty slice tail')
+            nm, info = self.content_info(selfp, st, eng)
+            st.trace = st.trace + ((st.pc, 'getitem_next(null head)', (argv[4] if len(argv) > 4 else None,)),)
+            self._ret(st, sret, self.fresh_content(eng, st, info['length'], info['atoms'], info['derived']))
+            return None
+        self._getitem_next_stub = s_getitem_next
         return {'vf$slot%d' % K['length']: s_length, 'vf$slot%d' % K['rnw']: s_rnw, 'vf$slot%d' % K['nothing']: s_nothing,
-                'vf$slot%d' % self.slot('5carryERKNS_7IndexOfIlEEb'): s_carry, 'vf$slot%d' % self.slot('12shallow_copyEv'): s_shallow_copy}
+                'vf$slot%d' % self.slot('5carryERKNS_7IndexOfIlEEb'): s_carry, 'vf$slot%d' % self.slot('12shallow_copyEv'): s_shallow_copy,
+                'vf$slot%d' % self.slot('12getitem_nextERKSt10shared_ptrINS_9SliceItemEERKNS_5SliceERKNS_7IndexOfIlEE'): s_getitem_next}
 
     def slot(self, frag):
         from .mharness import module_of
@@ -423,6 +446,17 @@ def decode_numpy(nc, mem, q, o):
         v = z3.Select(buf.arr, idx)
         vals.append(z3.simplify(v if v.size() == 64 else z3.SignExt(64 - v.size(), v)))
     return dict(cls='numpy', values=vals, byteoffset=byteoffset, itemsize=itemsize)
+
+
+def decode_cases(nc, mem, p):
+    """result pointer merged over several paths -> [(guard, decoded)]"""
+    out = []
+    for g, q in ptr_cases(p):
+        if q.obj is None:
+            out.append((g, None))
+        else:
+            out.append((g, decode(nc, mem, q)))
+    return out
 
 
 def length_of(d):
